@@ -23,6 +23,16 @@ pub struct Case {
 	pub full: bool,
 	pub initial: String,
 	pub op: SetOp,
+	/// setter calls made on OTHER buffers, on the same thread, just before (each judged as well)
+	#[serde(default)]
+	pub before: Vec<Prev>,
+}
+
+#[derive(Debug, Clone, Hash, Serialize, Deserialize)]
+pub struct Prev {
+	pub full: bool,
+	pub initial: String,
+	pub op: SetOp,
 }
 
 pub struct C05;
@@ -212,7 +222,7 @@ impl Prop for C05 {
 					} else {
 						op
 					};
-					Case { fam: f, full, initial, op }
+					Case { fam: f, full, initial, op, before: vec![] }
 				})
 			})
 			.boxed()
@@ -237,7 +247,20 @@ impl Prop for C05 {
 			cx.class("skipped-invalid-argument");
 			return Ok(());
 		}
-		let judged = by_fam!(case.fam, check(case, cx))?;
+		for p in &case.before {
+			let pc = Case { fam: case.fam, full: p.full, initial: p.initial.clone(), op: p.op.clone(), before: vec![] };
+			let ok = match case.fam {
+				Fam::Uri => u::op_valid(&p.op),
+				Fam::Iri => i::op_valid(&p.op),
+			};
+			if ok && !(p.full && p.op == SetOp::Scheme(None)) {
+				let mut scratch = Ctx::default();
+				by_fam!(case.fam, check(&pc, &mut scratch)).map_err(|f| Failure::new(format!("predecessor:{}", f.sig), format!("(call made just before on another buffer) {}", f.msg)))?;
+				cx.obs(scratch.observations);
+			}
+			cx.class("with-predecessor-call");
+		}
+		let judged = by_fam!(case.fam, check(case, cx)).map_err(|f| if case.before.is_empty() { f } else { Failure::new(format!("after-other-call:{}", f.sig), format!("(right after {:?} on other buffers, same thread) {}", case.before, f.msg)) })?;
 		if !judged {
 			cx.class("rejected-by-library");
 			return Ok(());
@@ -303,7 +326,76 @@ impl Prop for C05 {
 							continue;
 						}
 						let fam = if gi % 2 == 0 { Fam::Uri } else { Fam::Iri };
-						if !f(Case { fam, full: gi % 3 == 0, initial: initial.clone(), op: op.clone() }, true) {
+						if !f(Case { fam, full: gi % 3 == 0, initial: initial.clone(), op: op.clone(), before: vec![] }, true) {
+							return vec![];
+						}
+					}
+				}
+			}
+		}
+		// every ORDERED PAIR of calls from a small related set, made back to back on two different buffers
+		// (anything remembered from the first call - scratch text, offsets, lengths - must not reach the second)
+		{
+			let contexts = ["s://h/old?q#f", "q?x#y", "s:old", "//h", "", "s://h"];
+			let mut calls: Vec<(bool, String, SetOp)> = vec![];
+			for (ci, c) in contexts.iter().enumerate() {
+				let full = c.starts_with("s:") && ci % 2 == 0;
+				for p in ["a:b", "xa:b", "//x", "y//x", "/y//x", "./a:b", "/.//x", "p", "/p", "", "xp", "x/p"] {
+					calls.push((full, c.to_string(), SetOp::Path(p.to_string())));
+				}
+				for op in [SetOp::Authority(Some("g".into())), SetOp::Authority(Some("xg".into())), SetOp::Authority(None), SetOp::Scheme(Some("t".into())), SetOp::Query(Some("a:b".into())), SetOp::Query(None), SetOp::Fragment(Some("//x".into())), SetOp::Fragment(None)] {
+					calls.push((full, c.to_string(), op));
+				}
+			}
+			let mut pi = 0usize;
+			for a in &calls {
+				for b in &calls {
+					pi += 1;
+					if pi % nshards != shard {
+						continue;
+					}
+					let fam = if pi % 2 == 0 { Fam::Uri } else { Fam::Iri };
+					if !f(Case { fam, full: b.0, initial: b.1.clone(), op: b.2.clone(), before: vec![Prev { full: a.0, initial: a.1.clone(), op: a.2.clone() }] }, true) {
+						return vec![];
+					}
+				}
+			}
+		}
+		// the component(s) AFTER the edited one of every length 0..=25 000 (block-wise tail moves)
+		{
+			let maxlen = tier.pick(25_000usize, 70_000);
+			for n in 0..=maxlen {
+				if n % nshards != shard {
+					continue;
+				}
+				let x = "x".repeat(n);
+				let (initial, op) = match n % 4 {
+					0 => (format!("s://h/p?q#{x}"), SetOp::Query(Some("longer-query".into()))),
+					1 => (format!("s://h/p?{x}#f"), SetOp::Path("/a/longer/path".into())),
+					2 => (format!("s://h/{x}?q#f"), SetOp::Authority(Some("user@longer.example:8080".into()))),
+					_ => (format!("//h/p?q#{x}"), SetOp::Scheme(Some("scheme".into()))),
+				};
+				let fam = if n % 8 < 4 { Fam::Uri } else { Fam::Iri };
+				if !f(Case { fam, full: false, initial, op, before: vec![] }, true) {
+					return vec![];
+				}
+			}
+			// and every length through each of the four edits around the block sizes people pick
+			for base in [4096usize, 8192, 10_240, 16_384, 20_480, 32_768, 65_536] {
+				for d in 0..3usize {
+					let n = base + d - 1;
+					let x = "x".repeat(n);
+					for (k, (initial, op)) in [
+						(format!("s://h/p?q#{x}"), SetOp::Query(Some("longer-query".into()))),
+						(format!("s://h/p?{x}#f"), SetOp::Path("/a/longer/path".into())),
+						(format!("s://h/{x}?q#f"), SetOp::Authority(Some("user@longer.example:8080".into()))),
+						(format!("//h/p?q#{x}"), SetOp::Scheme(Some("scheme".into()))),
+						(format!("s://h/p?q#{x}"), SetOp::Fragment(Some(format!("{x}y")))),
+					].into_iter().enumerate() {
+						if (n + k) % nshards != shard {
+							continue;
+						}
+						if !f(Case { fam: Fam::Iri, full: false, initial, op, before: vec![] }, true) {
 							return vec![];
 						}
 					}
@@ -350,7 +442,7 @@ impl Prop for C05 {
 										continue;
 									}
 									let fam = if i % 2 == 0 { Fam::Uri } else { Fam::Iri };
-									if !f(Case { fam, full, initial: initial.clone(), op: op.clone() }, true) {
+									if !f(Case { fam, full, initial: initial.clone(), op: op.clone(), before: vec![] }, true) {
 										return vec![];
 									}
 								}
@@ -360,7 +452,7 @@ impl Prop for C05 {
 				}
 			}
 		}
-		vec!["huge values (1 MiB+3, 2 MiB; thorough: 64 KiB+1 .. 8 MiB+1): small<->huge and huge<->huge replacement through every setter", "2 schemes x 4 authorities x 10 path forms x 3 queries x 3 fragments x 29 setter calls x {reference, full}"]
+		vec!["every ordered pair of 120 related setter calls (6 contexts x 12 paths that are each other's suffixes / shielded forms + 8 other setters) made back to back on two buffers", "tail after the edited component of every length 0..=25 000 (thorough 70 000), and the lengths around 4 KiB .. 64 KiB block sizes through every setter", "huge values (1 MiB+3, 2 MiB; thorough: 64 KiB+1 .. 8 MiB+1): small<->huge and huge<->huge replacement through every setter", "2 schemes x 4 authorities x 10 path forms x 3 queries x 3 fragments x 29 setter calls x {reference, full}"]
 	}
 
 	fn floors(_tier: Tier) -> Vec<(&'static str, u64)> {
